@@ -360,12 +360,19 @@ def r35(ctx, rel_funcs, methods):
                 loops = loops_of(call)
                 ok = False
                 for l in loops:
-                    if isinstance(l, ast.For) and "picked" in ast.unparse(l.iter) and isinstance(l.target, ast.Name):
+                    if isinstance(l, ast.For) and "picked" in ast.unparse(l.iter):
+                        # the key variable of the loop over the job's picked entries:
+                        # `for ens in picked` / `picked.keys()`  or  `for ens, entry in picked.items()`
+                        keyvar = None
+                        if isinstance(l.target, ast.Name):
+                            keyvar = l.target.id
+                        elif isinstance(l.target, ast.Tuple) and l.target.elts and isinstance(l.target.elts[0], ast.Name) and ".items()" in ast.unparse(l.iter):
+                            keyvar = l.target.elts[0].id
                         a0 = call.args[0] if call.args else None
                         for k in call.keywords:
                             if k.arg == "ens":
                                 a0 = k.value
-                        if isinstance(a0, ast.Name) and a0.id == l.target.id:
+                        if isinstance(a0, ast.Name) and a0.id == keyvar:
                             ok = True
                 if ok:
                     ctx.ok(rid, call, "treat_output releases exactly the finished job's own ensembles (loop over picked)")
